@@ -595,6 +595,44 @@ def freshness_native(chk):
         if not all(sc.identical(y, ys[0]) for y in ys[1:]):
             bad.append(f'{cls.__name__}: repeated evaluation with the same parameter objects differs')
     record('repeated identical requests give identical answers (quadratures, transmission map, chopper openings, peak models)', not bad, str(bad))
+    # SQW writer: the builder's inputs (pixel data, experiments with efix / en / u / v already in meV float64, sample, histogram
+    # metadata) are untouched in every byte order, and writing the same builder input twice gives the same bytes
+    bad = []
+    try:
+        import copy as _copy
+        import dataclasses as _dc
+        from contracts import sqw_real
+        for bo in ('little', 'big', 'native'):
+            rng = np.random.default_rng(5)
+            content = sqw_real.make_content(rng, 12, 2, 't', 0, ['a', 'b', 'c'])     # unit_variant 0: meV, rad, 1/angstrom, float64
+
+            def variables(obj, path=''):
+                if isinstance(obj, sc.Variable | sc.DataArray):
+                    yield path, obj
+                elif _dc.is_dataclass(obj) and not isinstance(obj, type):
+                    for f in _dc.fields(obj):
+                        yield from variables(getattr(obj, f.name), f'{path}.{f.name}')
+                elif isinstance(obj, list | tuple):
+                    for k, x in enumerate(obj):
+                        yield from variables(x, f'{path}[{k}]')
+                elif isinstance(obj, dict):
+                    for k, x in obj.items():
+                        yield from variables(x, f'{path}[{k!r}]')
+            before = {pth: v.copy() for pth, v in variables(content)}
+            outs = []
+            for _ in range(2):
+                buf = io.BytesIO()
+                sqw_real.build_file(content, ['pixels', 'sample', 'instrument', 'dnd'], bo, 5, buf, 't')
+                outs.append(buf.getvalue())
+            for pth, v in variables(content):
+                if not sc.identical(v, before[pth], equal_nan=True):
+                    bad.append(f'byteorder={bo}: builder input {pth} modified by writing the file')
+                    break
+            if outs[0] != outs[1]:
+                bad.append(f'byteorder={bo}: writing the same input twice gives different files')
+    except Exception as e:  # noqa: BLE001
+        bad.append(f'SQW writer raised {type(e).__name__}: {e}')
+    record('SQW builder leaves its inputs unchanged (little / big / native byte order) and is repeatable', not bad, str(bad[:3]))
     stale = stale_result_failures()
     record('an argument changed in place between two calls is seen by the second call; results of consecutive calls do not share storage', not stale, str(stale[:2]))
     chk.extra['native_freshness_checks'] = n
